@@ -416,11 +416,13 @@ impl<S> Policies<S> {
     #[verifier::external_body] pub fn len(&self) -> (r: usize) { unimplemented!() }
     #[verifier::external_body] pub fn default() -> (r: Self) { unimplemented!() }
 }
+// whether the IRRd server can be reached in this run (arbitrary, fixed)
+pub uninterp spec fn irr_reachable() -> bool;
 pub struct RpslEvaluator;
 impl RpslEvaluator {
     // connects to the IRRd server
     #[verifier::external_body]
-    pub fn new(host: &str, port: u16) -> (r: Result<RpslEvaluator, LibError>) ensures r is Err ==> env_fault() { unimplemented!() }
+    pub fn new(host: &str, port: u16) -> (r: Result<RpslEvaluator, LibError>) ensures r is Err ==> env_fault(), r is Ok <==> irr_reachable() { unimplemented!() }
 }
 impl Policies<Candidate> {
     // Policies<Candidate>::evaluate (verified in unit a4): never fails as a whole - a policy whose expression cannot be
@@ -478,6 +480,9 @@ impl Updater {
 //@closure 1
                 -> (r: Result<Policies<Evaluated>, AnyErr>)
                 ensures r is Ok ==> acked_ok(response.ticket@),                                       // OBL:C04.run.failed_candidate_fetch_fails_the_task
+                        // C03: without the IRR there is no evaluated policy set at all - never an empty one that compare()
+                        // would read as "nothing is managed any more"
+                        r is Ok ==> irr_reachable(),                                                  // OBL:C03.run.unreachable_irr_fails_the_evaluation_task
                         r is Err ==> env_fault(),                                                     // OBL:C15.run.evaluation_task_fails_only_on_environment_faults
 //@closure 2
                 -> (r: Result<Policies<Installed>, AnyErr>)
